@@ -680,3 +680,41 @@ Proof.
     + split; auto. intros _. destruct Hex as (c & HAl). exists c. split; auto.
     + intros _. split; auto. intros c. split; [intros HAl; split; auto | tauto].
 Qed.
+
+(* ------------------------------------------------------------------ *)
+(* the per-file shortcut of time filters                              *)
+(* ------------------------------------------------------------------ *)
+Lemma lin_between : forall b lo hi x, lo <= x <= hi ->
+  (b * lo <= b * x <= b * hi) \/ (b * hi <= b * x <= b * lo).
+Proof.
+  intros b lo hi x H. destruct (Z.le_gt_cases 0 b).
+  - left. split; apply Z.mul_le_mono_nonneg_l; lia.
+  - right. split; apply Z.mul_le_mono_nonpos_l; lia.
+Qed.
+
+(* a filter that looks at one of the two times is monotone in it: between the file's bounds it decides like
+   the bounds when they agree *)
+Theorem time_shortcut_sound : forall a b d fmin fmax lmin lmax ft lt,
+  fmin <= ft <= fmax -> lmin <= lt <= lmax ->
+  match time_shortcut true a b d fmin fmax lmin lmax with
+  | ScDrop => time_filter a b d ft lt = true
+  | ScSkipFile => time_filter a b d ft lt = false
+  | ScKeep => True
+  end.
+Proof.
+  intros a b d fmin fmax lmin lmax ft lt Hf Hl. unfold time_shortcut, time_filter.
+  pose proof (lin_between b lmin lmax lt Hl). pose proof (lin_between a fmin fmax ft Hf).
+  change (negb true) with false. cbv beta iota zeta. rewrite orb_false_l.
+  destruct (Z.eqb_spec a 0) as [Ea|Ha]; [|destruct (Z.eqb_spec b 0) as [Eb|Hb]]; cbv beta iota; try exact I;
+    repeat match goal with |- context [Z.leb ?x ?y] => destruct (Z.leb_spec x y) end; cbv beta iota; try exact I;
+    try reflexivity; exfalso; subst; lia.
+Qed.
+
+(* with both times in the filter (a duration bound: ltime - ftime - 5 >= 0) the bounds say nothing:
+   file with streams (0, 10) and (5, 6): both synthetic corner points satisfy the bound, the second stream does not *)
+Theorem time_shortcut_unguarded_refuted : exists a b d fmin fmax lmin lmax ft lt,
+  fmin <= ft <= fmax /\ lmin <= lt <= lmax /\
+  time_shortcut false a b d fmin fmax lmin lmax = ScDrop /\ time_filter a b d ft lt = false.
+Proof.
+  exists (-1), 1, (-5), 0, 5, 6, 10, 5, 6. repeat split; try lia; reflexivity.
+Qed.
